@@ -19,6 +19,8 @@ partial def decPiece : Sx → Option Piece
   | .list [.atom "for", .str x, .list items, .list body] => do
     pure (.forLoop x ((← Sx.mapM? Sx.toStr? items).map String.toList) (← Sx.mapM? decPiece body))
   | .list [.atom "if", .str f, .list body] => do pure (.ifc f (← Sx.mapM? decPiece body))
+  | .list [.atom "with", .str x, .str v, .list body] => do pure (.withv x v.toList (← Sx.mapM? decPiece body))
+  | .list [.atom "la", .str a] => some (.loopAttr a)
   | .list [.atom "extl", .str n] => some (.ext (.lit n))
   | .list [.atom "extd", .str v] => some (.ext (.dyn v))
   | _ => none
